@@ -4,6 +4,8 @@ Property C09 — every evaluation leaves the engine's scope/call stack as it fou
 import ChaiVerif.Lemmas.ChaiRunShape
 import ChaiVerif.Lemmas.ChaiRunFrame
 import ChaiVerif.Lemmas.ChaiRunParamsMain
+import ChaiVerif.Model.Chai.Raii
+import ChaiVerif.Gen.Raii
 namespace ChaiVerif.C09
 open ChaiVerif.Chai
 
@@ -153,5 +155,26 @@ example :
     let s : St := { St.init [.native 7, .int 3] with fault := ⟨0, .nonStd, false⟩ }
     let r := run ρ 50 (.seq [.whileN (.const 1) (.block [.brk])]) s
     r.2.shape = ([1], 1, 0) := by decide
+
+/-! ### the RAII discipline, regenerated from the source -/
+
+/-- **every push has its pop by construction**: in the current source every call of a Stack_Holder push primitive (new_scope, new_stack,
+    new_function_call) sits in the CONSTRUCTOR of a guard struct and every call of a pop primitive in the DESTRUCTOR of the same kind of
+    struct (or in a same-named forwarder of the engine); no evaluator code pushes or pops by hand.  Census regenerated by
+    extract/e_raii.py on every run, checked by the kernel. -/
+theorem raii_primitives_only_in_guards :
+    Gen.raiiPrimitiveCalls.all (fun r =>
+      (r.2.2.2.1 == "forwarder") ||
+      (r.2.2.2.1 == "ctor" && (r.2.2.2.2 == "new_scope" || r.2.2.2.2 == "new_stack" || r.2.2.2.2 == "new_function_call")) ||
+      (r.2.2.2.1 == "dtor" && (r.2.2.2.2 == "pop_scope" || r.2.2.2.2 == "pop_stack" || r.2.2.2.2 == "pop_function_call"))) = true := by
+  decide
+
+/-- **the model wraps exactly the constructs the code wraps**: for every AST node class the evaluator model covers, the guard objects the
+    class constructs in the current source are the combinators `run` uses (`modelGuards`, Model/Chai/Raii.lean) — so the stack-shape
+    theorems above speak about the discipline the code actually has; the classes outside the model are pinned as they are today. -/
+theorem guards_as_modelled :
+    Gen.raiiGuards.all (fun r => (Chai.modelGuards.lookup r.1 == some r.2) || (Chai.unmodelledGuards.lookup r.1 == some r.2)) = true ∧
+    Chai.modelGuards.all (fun r => Gen.raiiGuards.lookup r.1 == some r.2) = true := by
+  decide
 
 end ChaiVerif.C09
